@@ -1,3 +1,6 @@
--- This module serves as the root of the `Isotp` library.
--- Import modules here that should be built as part of the library.
 import Isotp.Basic
+import Isotp.Pdu
+import Isotp.Address
+import Isotp.Frame
+import Isotp.Layer
+import Isotp.Process
